@@ -357,6 +357,20 @@ var c13Templates = []sim.Template{
 			act("regen", 0, -9, ""), act(k+"_remove", 0, -9, pickS(s.R, "ok", "recovery")), act("visit", 0, -9, "", "route", "/protected/full"))
 		return sc
 	}},
+	{Name: "confirm-page-without-a-pending-enrolment", F: func(s *sim.Sim) []*sim.Action {
+		// POST /2fa/totp/confirm from a fully authenticated session that never started an enrolment (no
+		// secret pending in the session), with every kind of code — among them the code of the EMPTY secret,
+		// which anybody can compute: nothing about the account's second factor changes
+		if !s.Cfg.Has2FA("totp") || s.Cfg.TwoFAEmail || !s.Cfg.Has("auth") {
+			return nil
+		}
+		v := findAcct(s, func(u *world.User) bool { return u.Confirmed && u.TOTPSecretKey != "" && u.SMSPhone == "" })
+		if v < 0 {
+			return nil
+		}
+		return []*sim.Action{act("login", 0, v, "ok"), act("totp_validate", 0, -9, "ok"), act("totp_confirm", 0, -9, "emptysecret"), act("totp_confirm", 0, -9, "ok"),
+			act("totp_confirm", 0, -9, "empty"), act("totp_confirm", 0, -9, "recovery"), act("visit", 0, -9, "", "route", "/protected/2fa")}
+	}},
 	{Name: "enrol-totp", F: func(s *sim.Sim) []*sim.Action {
 		if !s.Cfg.Has2FA("totp") || s.Cfg.TwoFAEmail || !s.Cfg.Has("auth") {
 			return nil
